@@ -444,6 +444,30 @@ def r5_r6_pools(repo):
         ("%s.bound" % tparam, True) in vb[0][1]
     obs.append(Ob("C08-R5", "variable-bound-draws-the-assignment-of-that-variable", _w(f), ok,
                   "a parameter bounded by another type variable must get that variable's assignment"))
+    # update_type_var_bound_rec may re-assign the bounding variable only if that variable is one of the parameters being
+    # instantiated here (it has an index); an assignment that came with the receiver (enclosing class) is not ours
+    u = repo.fn(TU + ".update_type_var_bound_rec")
+    gu_ = cfg_of(u.node)
+    mp, ixs = u.params[4], u.params[3]
+    wr = [n for n in iter_own_nodes(u.node) if isinstance(n, ast.Assign) and isinstance(n.targets[0], ast.Subscript) and
+          src(n.targets[0].value) == mp]
+    oku = bool(wr)
+    for n in wr:
+        key = src(n.targets[0].slice)
+        guarded = any(p_ and " ".join(src(t_).split()) == "%s in %s" % (key, ixs) for t_, p_ in flat_guards(n))
+        # ... or a lookup `indexes[key]` that raises KeyError for a foreign variable is evaluated before, in the same try
+        looked = [x for x in iter_own_nodes(u.node) if isinstance(x, ast.Subscript) and src(x.value) == ixs and
+                  src(x.slice) == key]
+        dominated = any(gu_.dominates(gu_.node(_stmt(x)), gu_.node(n)) and _stmt(x) is not n and
+                        any(isinstance(a, ast.Try) for a in ancestors(n)) and
+                        [a for a in ancestors(n) if isinstance(a, ast.Try)][:1] ==
+                        [a for a in ancestors(_stmt(x)) if isinstance(a, ast.Try)][:1] for x in looked)
+        if not (guarded or dominated):
+            oku = False
+    obs.append(Ob("C08-R5", "update_type_var_bound_rec:only-own-parameters-are-reassigned", _w(u), oku,
+                  "`%s[bound] = t` must happen only for a bound that is one of the parameters under instantiation "
+                  "(`bound in %s`, or after `%s[bound]` was evaluated in the same try): the receiver's assignment of an "
+                  "enclosing-class type variable must not be overwritten" % (mp, ixs, ixs)))
     wp = kinds.get("whole-pool", [])
     ok = len(wp) == 1 and ("%s.bound" % tparam, False) in wp[0][1]
     obs.append(Ob("C08-R5", "whole-pool-only-for-unbounded-parameters", _w(f), ok,
@@ -543,6 +567,68 @@ def r6_preassigned_propagation(repo):
     return obs
 
 
+def r6b_bound_assignment(repo):
+    """The mirror case: a parameter bounded by another type variable takes that variable's assignment
+    (`a_types = [t_bound]`).  The statements between the lookup of the assignment and that store are evaluated over
+    all abstract inputs: the parameter never takes an `in` projection, not an `out` projection when it is declared
+    contravariant itself, `Nothing` instead of an `out` projection outside type-constructor instantiation, and its
+    variance choices are closed whenever a projection was unwrapped."""
+    f = repo.fn(CTVA)
+    lp, idx, tparam = _main_loop(f)
+    g = cfg_of(f.node)
+    stores = [n for n in iter_own_nodes(lp) if isinstance(n, ast.Assign) and isinstance(n.targets[0], ast.Name) and
+              isinstance(n.value, ast.List) and len(n.value.elts) == 1 and isinstance(n.value.elts[0], ast.Name) and
+              any("type_var_map[%s.bound]" % tparam in src(d[1]) for d in g.defs_reaching(n.value.elts[0].id, n)
+                  if isinstance(d[1], ast.AST))]
+    if len(stores) != 1:
+        raise AnalysisError("expected one `pool = [<assignment of the bounding variable>]` store", rule="C08-R6b",
+                            anchor=f.qualname)
+    st = stores[0]
+    tb = st.value.elts[0].id
+    blk = st._parent.body if st in getattr(st._parent, "body", []) else getattr(st._parent, "orelse", [])
+    i_end = blk.index(st)
+    # the statements after the lookup (a try / assert that produces the value) up to the store
+    i0 = 0
+    for i, s_ in enumerate(blk[:i_end]):
+        if isinstance(s_, (ast.Try, ast.Assert)) or (isinstance(s_, ast.Assign) and "type_var_map[" in src(s_.value)):
+            i0 = i + 1
+    fake = ast.FunctionDef(name="_blk", args=None, body=blk[i0:i_end], decorator_list=[])
+    vc, ftc = f.params[3], "for_type_constructor"
+    obs = []
+    for kind, decl, bdecl, choices, ftcv in itertools.product(
+            ["plain", "out", "in"], ["inv", "cov", "contra"], ["inv", "cov", "contra"], [None, "dict"], [False, True]):
+        B = absint.AObj("B", is_wildcard=lambda: False, is_covariant=lambda: False, is_contravariant=lambda: False,
+                        is_invariant=lambda: True)
+        t = B if kind == "plain" else absint.AObj(
+            "in B" if kind == "in" else "out B", is_wildcard=lambda: True, bound=B,
+            is_covariant=lambda k=kind: k == "out", is_contravariant=lambda k=kind: k == "in", is_invariant=lambda: False)
+        PB = absint.AObj("PB", is_invariant=lambda d=bdecl: d == "inv", is_covariant=lambda d=bdecl: d == "cov",
+                         is_contravariant=lambda d=bdecl: d == "contra", is_type_var=lambda: True)
+        P = absint.AObj("P", is_invariant=lambda d=decl: d == "inv", is_covariant=lambda d=decl: d == "cov",
+                        is_contravariant=lambda d=decl: d == "contra", bound=PB)
+        env = {tb: t, tparam: P, vc: None if choices is None else {}, ftc: ftcv, "type_var_map": "MAP"}
+        hooks = {"tp.Nothing": absint.AObj("Nothing", is_wildcard=lambda: False)}
+        fin = {}
+        try:
+            absint.run(fake, env, hooks, final_env=fin)
+        except AnalysisError as e:
+            raise AnalysisError("bound-assignment block cannot be evaluated: %s" % e, rule="C08-R6b", anchor=f.qualname)
+        got = fin[tb].name if isinstance(fin[tb], absint.AObj) else str(fin[tb])
+        closed = (env[vc] or {}).get("P") if choices else None
+        want = "B"
+        if kind == "out" and decl != "contra":
+            want = "out B" if ftcv else "Nothing"
+        ok = got == want
+        if choices and (kind == "in" or (kind == "out" and decl == "contra")):
+            ok = ok and closed == (False, False)
+        obs.append(Ob("C08-R6b", "row:assignment=%s declared=%s bound-declared=%s choices=%s for_type_constructor=%s"
+                      % (kind, decl, bdecl, choices, ftcv), _w(f, st), ok,
+                      "the parameter takes %s (expected %s); its variance choices afterwards: %s.  The unwrapping depends "
+                      "on the variance of the parameter itself, not of the variable that bounds it" % (got, want, closed),
+                      {"taken": got, "expected": want, "choices_after": str(closed)}))
+    return obs
+
+
 def rules():
     return [
         RuleSpec("C08-R1", "exactly one argument and one map entry per type parameter", 5, r1_exactly_one),
@@ -553,6 +639,8 @@ def rules():
         RuleSpec("C08-R5", "bounds drive the pool; pre-assignments kept", 5, r5_r6_pools),
         RuleSpec("C08-R6", "pre-assigned arguments: what is propagated up the bound chain (all abstract inputs)", 36,
                  r6_preassigned_propagation),
+        RuleSpec("C08-R6b", "parameter bounded by a type variable: what it takes from that variable's assignment "
+                            "(all abstract inputs)", 108, r6b_bound_assignment),
         RuleSpec("C08-R7", "PECS tables", 2, r7_pecs),
     ]
 
